@@ -35,13 +35,14 @@ let handle (line : string) : string =
           (fbits tq)
       in
       Printf.sprintf "ok %s %s %s" (hexf t) (triple a) (triple b)
-  | "fit3" :: n :: rest ->
+  | (("fit3" | "cls14") as tag) :: n :: rest ->
       let rec pts = function
         | r :: phi :: z :: t -> mk_spoint (fbits r) (fbits phi) (fbits z) :: pts t
         | _ -> []
       in
       let l = pts rest in
       if List.length l <> int_of_string n then "bad-case"
+      else if tag = "cls14" then (if tinyphi_class glibc l then "tinyphi" else "ordinary")
       else (
         match n_to_int (fit3_outcome glibc l) with 0 -> "noinit" | 1 -> "track" | _ -> "panic")
   | _ -> "unknown-case"
